@@ -503,6 +503,70 @@ def run_out(ctx):
                              ["positive", "out-keyword", f"function:{name}", "value"])
 
 
+class _TaggedArray(numpy.ndarray):
+    """a user's ndarray subclass that adds nothing (inherits ndarray.__array_function__ / __array_ufunc__)"""
+
+
+class _TaggedPoly(numpoly.ndpoly):
+    """a user's ndpoly subclass that adds nothing"""
+
+
+def run_flavours(ctx):
+    """the same call with the plain operand replaced by another ndarray flavour holding the same numbers (numpy.memmap,
+    a trivial ndarray subclass) or the polynomial viewed as a trivial ndpoly subclass: numpy.f and numpoly.f still
+    agree with each other and with the plain call (seeded change C08-7: dispatch declined for foreign ndarray types)"""
+    import shutil
+    import tempfile
+    rng = ctx.rng("flavours")
+    tmp = tempfile.mkdtemp(prefix="verif-c08-")
+    binary = ["add", "subtract", "multiply", "equal", "not_equal", "isclose", "inner", "outer", "matmul", "dot", "logical_or"]
+    seqs = ["concatenate", "vstack", "hstack", "stack", "dstack"]
+    unary = ["sum", "transpose", "cumsum", "prod", "mean", "negative", "square", "ravel", "any", "all", "count_nonzero"]
+    try:
+        for rep in range(2 if ctx.quick else 12):
+            shape = (2, 2) if rep % 2 == 0 else (3,)
+            p = P(rng, shape=shape, nterms=2)
+            plain = C(rng, shape)
+            mm = numpy.memmap(f"{tmp}/m{rep}.dat", dtype=plain.dtype, mode="w+", shape=shape)
+            mm[...] = plain
+            tagged = plain.view(_TaggedArray)
+            sub = p.view(_TaggedPoly)
+            calls = [(n, lambda f, o, n=n: f(p, o), True) for n in binary]
+            calls += [(n, lambda f, o, n=n: f([p, o]), True) for n in seqs]
+            calls += [("where", lambda f, o: f(numpy.asarray(o) > 2, p, o), True)]
+            calls += [(n, lambda f, o, n=n: f(o), False) for n in unary]
+            for name, call, foreign_array in calls:
+                if not hasattr(numpoly, name):
+                    continue
+                base_operand = plain if foreign_array else p
+                try:
+                    with warnings.catch_warnings():
+                        warnings.simplefilter("ignore")
+                        want = catalogue.canon(call(getattr(numpoly, name), base_operand))
+                except Exception:  # noqa: BLE001
+                    continue        # not a valid call for this shape (matmul of 1-d etc. are other properties' business)
+                flavours = [("numpy.memmap", mm), ("ndarray subclass", tagged)] if foreign_array else [("ndpoly subclass", sub)]
+                for flabel, operand in flavours:
+                    for slabel, mod in (("numpy", numpy), ("numpoly", numpoly)):
+                        ctx.evaluations += 1
+                        ctx.count("flavours")
+                        case = {"kind": "flavour", "function": f"numpy.{name}", "flavour": flabel, "spelling": slabel}
+                        try:
+                            with warnings.catch_warnings():
+                                warnings.simplefilter("ignore")
+                                got = catalogue.canon(call(getattr(mod, name), operand))
+                        except Exception as err:  # noqa: BLE001
+                            ctx.fail(case, f"{slabel}.{name} with a {flabel} operand raises {type(err).__name__}: {str(err)[:100]} while the "
+                                     f"plain-array call returns a value", ["positive", "flavour", f"function:numpy.{name}", "raises"])
+                            continue
+                        if got != want:
+                            ctx.fail(case, f"{slabel}.{name} with a {flabel} operand returns {str(got)[:120]}, with the plain operand {str(want)[:120]}",
+                                     ["positive", "flavour", f"function:numpy.{name}", "value"])
+            del mm
+    finally:
+        shutil.rmtree(tmp, ignore_errors=True)
+
+
 def run(ctx):
     ctx.rule = RULE
     from ..extract import tables
@@ -511,6 +575,7 @@ def run(ctx):
     registry_f = dict(t["functionRegistry"])
     run_positive(ctx, set(registry_u) | set(registry_f))
     run_out(ctx)
+    run_flavours(ctx)
     run_negative_ufuncs(ctx, registry_u)
     run_negative_functions(ctx, registry_f)
     ctx.exhaustive = True
@@ -534,6 +599,14 @@ def replay(ctx, case):
         return hits[0]["what"] if hits else None
     if case["kind"] == "function":
         run_negative_functions(ctx, dict(t["functionRegistry"]))
+        hits = [f for f in ctx.failures[n:] if f["case"].get("function") == case["function"]]
+        return hits[0]["what"] if hits else None
+    if case["kind"] == "flavour":
+        run_flavours(ctx)
+        hits = [f for f in ctx.failures[n:] if f["case"].get("function") == case["function"] and f["case"].get("flavour") == case["flavour"]]
+        return hits[0]["what"] if hits else None
+    if case["kind"] == "out":
+        run_out(ctx)
         hits = [f for f in ctx.failures[n:] if f["case"].get("function") == case["function"]]
         return hits[0]["what"] if hits else None
     run_positive(ctx, set(dict(t["ufuncRegistry"])) | set(dict(t["functionRegistry"])))
